@@ -311,6 +311,48 @@ def fam_g_helper_list_without():
     return FamilySpec(nm, ["C03", "C04", "C05", "C06", "C17"], run, functions=["utilities.list_without_entry_at"])
 
 
+def fam_g_helper_list_with_updated():
+    """utilities.list_with_updated_entry_at(entries, i, new) for a list of any length and any int i
+    (the contract in gexec.HELPER_CONTRACTS is the case 0 <= i < len(entries))."""
+    nm = "utilities.list_with_updated_entry_at[any length]"
+
+    def run(prog, tier):
+        from ..gmode import SList
+        fd = prog.func("utilities.list_with_updated_entry_at")
+
+        def setup(I):
+            I.ghost["inline_helper"] = fd.qualname
+            k = z3.Int("k")
+            I.path.assume(k >= 0)
+            A = z3.Function("entry", z3.IntSort(), z3.RealSort())
+            sl = SList(k, lambda t: SNum(A(t), False), "entries")
+            i, new = z3.Int("i"), z3.Real("new")
+            I.ghost.update({"A": A, "k": k, "i": i, "new": new})
+            return lambda: I.call_funcdef(fd, [sl, SNum(i, True), SNum(new, False)], {})
+
+        def post(I, res, emit):
+            g = I.ghost
+            A, k, i, new = g["A"], g["k"], g["i"], g["new"]
+            if res.outcome[0] != "ret":
+                emit("no-exception", ["C17"], z3.BoolVal(False), info=f"{H.exc_kind(res.outcome[1])} at {res.outcome[2]}")
+                return
+            r = res.outcome[1]
+            ok = isinstance(r, SList)
+            emit("returns-a-list", ["C17"], z3.BoolVal(ok))
+            if not ok:
+                return
+            oor = z3.Or(i >= k, i <= -(k + 1))
+            j = z3.If(i >= 0, i, k + i)
+            emit("length", ["C08"], r.length == k)
+            u = z3.Int("u!elem")
+            qm(I).add_index(u, r.length)
+            got = r.elem(u)
+            want = z3.If(z3.And(z3.Not(oor), u == j), new, A(u))
+            emit("elements", ["C08"], z3.Implies(z3.And(u >= 0, u < r.length), real_term(got) == want if is_num(got) else z3.BoolVal(False)))
+        return H.run_family(prog, nm, setup, post)
+    return FamilySpec(nm, ["C08", "C05", "C06", "C07", "C09", "C17"], run, functions=["utilities.list_with_updated_entry_at"])
+
+
 def fam_g_helper_partition():
     """utilities.partition_by_predicate(entries, predicate) for a list of any length and any
     predicate of the entry: the two returned lists are the hits and the misses in order
@@ -366,7 +408,7 @@ def specs(prog, tier):                                    # noqa: F811
     out += [fam_g_numeric_partial(add), fam_g_compute_numeric_partials(add)]
     mul = prog.classes["Multiply"]
     out += [fam_g_compute_numeric_partials(mul), fam_g_numeric_partial(mul)]
-    out += [fam_g_helper_multiply(), fam_g_helper_list_without(), fam_g_helper_partition()]
+    out += [fam_g_helper_multiply(), fam_g_helper_list_without(), fam_g_helper_partition(), fam_g_helper_list_with_updated()]
     return out
 
 
@@ -617,6 +659,47 @@ def fam_g_reducer(cls, rule):
     return FamilySpec(nm, list(IMPORTERS) + ["C17"], run, functions=[f"{cls.name}.{rule}"], optional=True)
 
 
+def fam_g_take_reduction_step(cls):
+    """The step driver of an n-ary class for every arity: the result refines self; the flag is
+    only set when every operand carries it and every rule declined."""
+    from .reduce import IMPORTERS, reducers_of
+    nm = f"{cls.name}[any arity]._take_reduction_step"
+
+    def run(prog, tier):
+        fd = cls.lookup("_take_reduction_step")
+
+        def setup(I):
+            pt = H.make_point(I)
+            I.ghost["ambient_names"] = []
+            slf = make_self_g(I, cls)
+            I.ghost["self"], I.ghost["pt"] = slf, pt
+            return lambda: I.call_funcdef(fd, [slf], {})
+
+        def post(I, res, emit):
+            slf, pt = I.ghost["self"], I.ghost["pt"]
+            fam = I.ghost["family"]
+            if res.outcome[0] == "raise":
+                emit("no-exception", ["C08", "C17"], z3.BoolVal(False), info=f"{H.exc_kind(res.outcome[1])} at {res.outcome[2]}")
+                return
+            r = res.outcome[1]
+            if not (isinstance(r, Obj) and (r.cls is None or r.cls.name in sym.CLS)):
+                emit("returns-expression", ["C08", "C17"], z3.BoolVal(False), info=repr(r))
+                return
+            ds, dr = spec.den(I, slf, pt), spec.den(I, r, pt)
+            emit("result-mentions-no-new-variable", list(IMPORTERS),
+                 gmode.skolem_subset(I, spec.vars_of(I, r), spec.vars_of(I, slf), "vars"))
+            emit("step-refines", list(IMPORTERS), z3.Implies(ds.D, z3.And(dr.D, dr.V == ds.V)))
+            if slf.fields.get("_is_fully_reduced") is True:
+                declined = {c[0] for c in I.call_log if len(c) == 3 and c[2] == "declined"}
+                fired = [c for c in I.call_log if len(c) == 3 and c[2] == "fired"]
+                emit("flag-set=>no-rule-applies", ["C09", "C08"], z3.BoolVal((not fired) and set(reducers_of(cls)) <= declined),
+                     info=f"declined={sorted(declined)} fired={fired}")
+                emit("flag-set=>children-flagged", ["C09"], gmode.forall_const(I, fam.length, lambda t: fam.frF(t), "children-flagged"))
+        return H.run_family(prog, nm, setup, post, force_contract=("_reduce_*", "_consolidate_expression_lacking_variables"))
+    return FamilySpec(nm, list(IMPORTERS) + ["C17"], run, optional=True,
+                      functions=[f"{cls.name}._take_reduction_step", f"{cls.name}._rebuild", f"{cls.name}._reducers"])
+
+
 G_REDUCERS = [("Multiply", "_reduce_product_when_multiplying_by_zero"), ("Multiply", "_reduce_product_by_eliminating_ones"),
               ("Add", "_reduce_sum_by_eliminating_zeros"),
               ("Multiply", "_reduce_product_by_consolidating_constants"), ("Add", "_reduce_sum_by_consolidating_constants"),
@@ -637,6 +720,7 @@ def specs(prog, tier):                                    # noqa: F811
     sp2 = fam_g_compute_synthetic_partials(prog.classes["Multiply"])
     sp2.optional = True
     out.append(sp2)
+    out += [fam_g_take_reduction_step(prog.classes["Add"]), fam_g_take_reduction_step(prog.classes["Multiply"])]
     for cname, rule in G_REDUCERS:
         if prog.classes[cname].lookup(rule) is not None:
             out.append(fam_g_reducer(prog.classes[cname], rule))
